@@ -548,7 +548,16 @@ impl Compiler<'_, '_, '_, '_> {
 // We also require that `extra_v` is None, since otherwise the user might have
 // additional values stashed somewhere.
 pub(crate) fn possible_gc(eval: &mut Evaluator) {
+    #[cfg(starlark_verif)]
+    if crate::__verif::gc_forced_at_safepoint() && !eval.disable_gc {
+        // Verification hook: collection forced by the harness at this safepoint.
+        unsafe { eval.garbage_collect() }
+        crate::__verif::note_collection();
+        return;
+    }
     if !eval.disable_gc && eval.heap().allocated_bytes() >= eval.next_gc_level {
+        #[cfg(starlark_verif)]
+        crate::__verif::note_collection();
         // When we are at a module scope (as checked above) the eval contains
         // references to all values, so walking covers everything and the unsafe
         // is satisfied.
